@@ -390,12 +390,13 @@ var helperKinds = []string{"sub", "openfile", "create", "mkdir", "mkdirall", "mk
 func genCase(t *rapid.T, inner string) Case {
 	c := Case{Inner: inner}
 	scratch := subj.NewMem()
+	names := gen.Alphabet(t)
 	n := rapid.IntRange(0, 6).Draw(t, "nsetup")
 	for i := 0; i < n; i++ {
 		snap, _ := ops.SnapFS(scratch)
 		tr := gen.TreeOf(snap)
 		k := rapid.SampledFrom([]string{"mkdir", "mkdirall", "writefile", "writefile"}).Draw(t, "skind")
-		op := ops.Op{K: k, P: gen.Path(t, tr, gen.Names, 3, false, "sp"), Perm: 0o755}
+		op := ops.Op{K: k, P: gen.Path(t, tr, names, 3, false, "sp"), Perm: 0o755}
 		if k == "writefile" {
 			op.Perm = 0o644
 			op.Data = gen.Payload(t, 8, "sdata")
@@ -406,7 +407,7 @@ func genCase(t *rapid.T, inner string) Case {
 	snap, _ := ops.SnapFS(scratch)
 	tr := gen.TreeOf(snap)
 	k := rapid.SampledFrom(helperKinds).Draw(t, "helper")
-	op := ops.Op{K: k, P: gen.Path(t, tr, gen.Names, 3, true, "p"), Perm: gen.Perm(t, "perm")}
+	op := ops.Op{K: k, P: gen.Path(t, tr, names, 3, true, "p"), Perm: gen.Perm(t, "perm")}
 	switch k {
 	case "openfile":
 		op.Flag = gen.Flags(t, "flag")
@@ -420,7 +421,7 @@ func genCase(t *rapid.T, inner string) Case {
 	case "writefile":
 		op.Data = gen.Payload(t, 12, "data")
 	case "rename", "symlink":
-		op.P2 = gen.Second(t, tr, op.P, gen.Names, 3, true, "p2")
+		op.P2 = gen.Second(t, tr, op.P, names, 3, true, "p2")
 	case "chtimes":
 		op.Sec = 1_400_000_000
 	case "sub":
